@@ -198,7 +198,7 @@ func c01r3(r *R) {
 	sites := bareAppendInts(c, bare)
 	r.Ob("C01.R3", "instances").Check(len(sites) == 9, "expected 9 AppendInt sites in ja3.Bare (version + 2 per list), found %d", len(sites))
 	for _, l := range ja3Lists {
-		loopForm := "p0." + l.Field + "[:(builtin.len(p0." + l.Field + ") - 1)][" + rngIdx + "]"
+		loopForm := "p0." + l.Field + "[" + rngIdx + "]"
 		lastForm := "p0." + l.Field + "[(builtin.len(p0." + l.Field + ") - 1)]"
 		for _, form := range []struct{ kind, e string }{{"loop", loopForm}, {"last", lastForm}} {
 			o := r.Ob("C01.R3", "element:"+l.Field+":"+form.kind)
@@ -213,14 +213,20 @@ func c01r3(r *R) {
 			}
 			o.AtI(hit.I)
 			gs := c.guardStrs(hit.I.Block())
-			var want []string
+			// required conditions, conditions that may additionally be present (implied by the required ones), and for
+			// the last element the two spellings of "the list is not empty"
+			var want, optional []string
+			var oneOf []string
 			if l.Grease {
 				want = append(want, "-ja3.greaseValues["+form.e+"]")
 			}
+			n1 := "(builtin.len(p0." + l.Field + ") - 1)"
 			if form.kind == "loop" {
-				want = append(want, "+("+rngIdx+" < (builtin.len(p0."+l.Field+") - 1))", "+(1 < builtin.len(p0."+l.Field+"))")
+				want = append(want, "+("+rngIdx+" < "+n1+")")
+				optional = append(optional, "+(1 < builtin.len(p0."+l.Field+"))", "+(0 <= "+n1+")", "+("+n1+" != -1)")
 			} else {
-				want = append(want, "+((builtin.len(p0."+l.Field+") - 1) != -1)")
+				oneOf = []string{"+(" + n1 + " != -1)", "+(0 <= " + n1 + ")", "+(0 < builtin.len(p0." + l.Field + "))", "+(0 != builtin.len(p0." + l.Field + "))"}
+				optional = append(optional, "+("+n1+" <= "+rngIdx+")", "+(1 < builtin.len(p0."+l.Field+"))", "+(builtin.len(p0."+l.Field+") <= 1)")
 			}
 			for _, w := range want {
 				if strings.HasPrefix(w, "-ja3.greaseValues") {
@@ -229,10 +235,19 @@ func c01r3(r *R) {
 					o.Check(hasGuard(gs, w), "the %s element of %s is appended under %v, missing %s", form.kind, l.Field, gs, w)
 				}
 			}
+			if len(oneOf) > 0 {
+				okOne := false
+				for _, w := range oneOf {
+					if hasGuard(gs, w) {
+						okOne = true
+					}
+				}
+				o.Check(okOne, "the last element of %s is appended under %v, missing the non-empty test (%s)", l.Field, gs, oneOf[0])
+			}
 			for _, g := range gs {
 				ok := false
-				for _, w := range want {
-					if g == w {
+				for _, w := range append(append(append([]string{}, want...), optional...), oneOf...) {
+					if g == canonStr(w) {
 						ok = true
 					}
 				}
